@@ -116,6 +116,12 @@ def run(ctx):
         except Exception:
             return False
     core.run_stream(ctx, core.Stream("verify_root: rules x signer subsets x signature states x versions x types x path mutations", cases, rel, oracle, nontriv))
+    # the body of verify_root as written in authentication.py (Gen/Source.v, translated on this run), interpreted, with the model answering for
+    # verify_signable: against the implementation on the same cases
+    scases = [{"w": c["w"].replace("verify_root", "src_verify_root", 1), "meta": c["meta"]} for c in cases[:: (2 if ctx.quick else 1)]]
+    core.run_stream(ctx, core.Stream("interpreted source of verify_root (Gen/Source.v via PySrc.run_body, verify_signable answered by the model) vs implementation",
+                                     scases, lambda c, io, mo: None if core.impl_class(io) == core.model_class(mo) else "the interpreted source and the implementation differ: impl %s, interpreter %s" % (core.impl_class(io), core.model_class(mo)),
+                                     None, nontrivial=lambda c, i, m: m != "U", mismatch_kind="tie"))
     def want(c):
         _, T, U = wire.dec(c["w"])
         try:
